@@ -453,6 +453,64 @@ def r6_stop_before_join(chk: Check) -> None:
                           "a KeyboardInterrupt raised in the consumer loop reaches the join of the worker threads before engine.stop() is called: the workers do not see a stop request and send every remaining request while the main thread waits (the run is reported as interrupted only afterwards)",
                           fn.loc(), g.describe_path(w, fn.module.relpath))
 
+    # (b) the consumer goes away: the event generator is closed (GeneratorExit at a `yield`) or an exception - e.g. a
+    #     Ctrl-C that hit the CLI's own event handler - is thrown into it.  Nobody will read further events, so the
+    #     stop flag must be set before the phase waits for its workers here as well.
+    def _yield_raises(node: ast.AST) -> list[str]:
+        return ["GeneratorExit"] if any(isinstance(x, (ast.Yield, ast.YieldFrom)) for x in walk_local(node)) else []
+
+    def exit_stops_on_error(cls_: object) -> bool:
+        ex_ = P.resolve_method(cls_, "__exit__")  # type: ignore[arg-type]
+        if ex_ is None:
+            return False
+        ge = cfg_of(ex_)
+        tyname = params_of(ex_.node)[1] if len(params_of(ex_.node)) > 1 else "ty"
+        for c_ in body_calls(ex_):
+            if last_attr(c_) == "stop" and isinstance(c_.func, ast.Attribute) and dotted(c_.func.value) not in ("self", None):
+                facts = known_conditions(ge, ge.stmt_nodes_containing(c_))
+                if facts.get(f"{tyname} is None") is False:
+                    later_join = [nid for j in body_calls(ex_) if (last_attr(j) in ("join",) or (last_attr(j) == "stop" and dotted(j.func.value) == "self")) for nid in ge.stmt_nodes_containing(j)]  # type: ignore[union-attr]
+                    if later_join and ge.path(ge.stmt_nodes_containing(c_), later_join) is not None:
+                        return True
+        return False
+
+    for ref in (f"{UNIT}:execute", "engine/phases/stateful/__init__.py:execute"):
+        fn = P.func(ref)
+        g = cfg_of(fn, "yield-raises", extra_raises=_yield_raises)
+        engine_params = set(params_of(fn.node))
+        stop_nodes = [nid for c in body_calls(fn) if last_attr(c) == "stop" and isinstance(c.func, ast.Attribute) and dotted(c.func.value) in engine_params for nid in g.stmt_nodes_containing(c)]
+        join_nodes = []
+        for c in body_calls(fn):
+            if last_attr(c) == "join" and isinstance(c.func, ast.Attribute) and not isinstance(c.func.value, ast.Constant):
+                join_nodes += g.stmt_nodes_containing(c)
+        covered_by_exit = False
+        for w_ in [x for x in walk_body(fn.node) if isinstance(x, ast.With)]:
+            for item in w_.items:
+                if isinstance(item.context_expr, ast.Call):
+                    r = P.resolve_call(fn, item.context_expr)
+                    if r and r[0] == "class":
+                        ex = P.resolve_method(r[1], "__exit__")  # type: ignore[arg-type]
+                        if ex is not None and joins(ex):
+                            if exit_stops_on_error(r[1]):
+                                covered_by_exit = True
+                            else:
+                                join_nodes += [x.id for x in g.live() if x.kind == "wexit" and x.ast is not None and (x.ast is w_ or x.ast is item.context_expr)]
+        # only yields that can be reached WITHOUT having set the stop flag matter (the `yield Interrupted` of the Ctrl-C arm
+        # comes after engine.stop())
+        ge_sources = [m for x in g.live() for m, lbl in x.succ if lbl == "exc:GeneratorExit" and g.path([g.entry], [x.id], avoid=stop_nodes) is not None]
+        construct = "engine.stop() precedes the join of the workers when the consumer abandons the event stream"
+        if not ge_sources:
+            chk.undecided("C12.R6", fn, construct, "no yield inside the phase executor recognised", fn.loc())
+            continue
+        n += 1
+        w = g.path(ge_sources, join_nodes, avoid=stop_nodes) if join_nodes else None
+        if w is None:
+            chk.ok("C12.R6", fn, construct, "the pool's __exit__ sets the stop flag for exceptional exits" if covered_by_exit else f"{len(ge_sources)} yield exit(s)", fn.loc())
+        else:
+            chk.violation("C12.R6", fn, construct,
+                          "when the event generator is closed or an exception is thrown into it at a `yield` (Ctrl-C landing in a CLI event handler, a handler error), the phase only joins its worker threads: the stop flag is never set, so the workers go on to test every remaining operation and the process keeps sending requests after `Aborted!`",
+                          fn.loc(), g.describe_path(w, fn.module.relpath))
+
 
 def rules(tier: str) -> list:  # type: ignore[type-arg]
     return [r1_stop_checks, r2_failure_limit, r3_plumbing, r4_unique_inputs, r4b_cache_writers, r5_ratelimit, r6_stop_before_join]
